@@ -6,14 +6,14 @@ import sys
 from hypothesis import strategies as st
 
 from vf.core import Clause, Property, Violation
-from vf.osk import guarded, mk_model, mk_teams
+from vf.osk import guarded, mk_model, mk_teams, model_for
 from vf.predgen import pred_cases, pred_labels
 
 EPS = sys.float_info.epsilon
 
 
-def pw(cfg, teams, ctx):
-    m = mk_model(cfg)
+def pw(cfg, teams, ctx, case=None):
+    m = model_for(cfg, case or {})
     ctx.called()
     return guarded(m.predict_win, mk_teams(m, teams), what="predict_win")
 
@@ -22,7 +22,7 @@ def check_c09(case, ctx):
     cfg, teams = case["cfg"], case["teams"]
     kind = cfg["kind"]
     n = len(teams)
-    p = pw(cfg, teams, ctx)
+    p = pw(cfg, teams, ctx, case)  # the base call: on a model that may have been through a failed call (prelude)
     for lab in pred_labels(case):
         ctx.label(lab)
     if not isinstance(p, list) or len(p) != n:
